@@ -2,6 +2,7 @@ package main
 
 import (
 	"context"
+	"crypto/tls"
 	"fmt"
 	"runtime"
 	"sync"
@@ -29,6 +30,7 @@ type c16Scn struct {
 	point, actor string
 	version      primitive.ProtocolVersion
 	busy         bool // a sender and a receiver are active while the fault is injected
+	tls          bool // the connection is a TLS connection (closing it after a reset reports an error)
 }
 
 func c16Scenarios() []c16Scn {
@@ -46,7 +48,10 @@ func c16Scenarios() []c16Scn {
 					if busy && (p == "before-connect" || p == "after-connect" || p == "mid-handshake") {
 						continue
 					}
-					l = append(l, c16Scn{p, a, v, busy})
+					l = append(l, c16Scn{p, a, v, busy, false})
+				}
+				if v == primitive.ProtocolVersion4 && (p == "requests-in-flight" || p == "mid-response") {
+					l = append(l, c16Scn{p, a, v, false, true})
 				}
 			}
 		}
@@ -55,7 +60,11 @@ func c16Scenarios() []c16Scn {
 }
 
 func (s c16Scn) String() string {
-	return fmt.Sprintf("version=%v fault=%s at=%s busy=%v", s.version, s.actor, s.point, s.busy)
+	t := ""
+	if s.tls {
+		t = " tls=true"
+	}
+	return fmt.Sprintf("version=%v fault=%s at=%s busy=%v%s", s.version, s.actor, s.point, s.busy, t)
 }
 
 // c16Select: thorough = every scenario; quick = every (point, fault, busy) combination once, versions alternating
@@ -66,7 +75,7 @@ func c16Select() []c16Scn {
 	}
 	var q []c16Scn
 	seen := map[string]bool{}
-	key := func(s c16Scn) string { return s.point + "/" + s.actor + fmt.Sprint(s.busy) }
+	key := func(s c16Scn) string { return s.point + "/" + s.actor + fmt.Sprint(s.busy, s.tls) }
 	for _, s := range scns {
 		if !seen[key(s)] && ((s.version == primitive.ProtocolVersion5) == (len(q)%2 == 0) || s.point == "mid-paging") {
 			seen[key(s)] = true
@@ -110,7 +119,11 @@ func runC16Scenario(res *lp.Result, s c16Scn) {
 	runtime.GC()
 	base := runtime.NumGoroutine()
 
-	srv, addr, srvCancel := startServer(nil)
+	var srvTLS, clTLS *tls.Config
+	if s.tls {
+		srvTLS, clTLS = selfSignedTLS()
+	}
+	srv, addr, srvCancel := startServerTLS(srvTLS, nil)
 	defer srvCancel()
 	px, paddr := startProxy(addr)
 	defer px.stop()
@@ -155,6 +168,7 @@ func runC16Scenario(res *lp.Result, s c16Scn) {
 	} else {
 		cl := newClient(paddr, nil, primitive.CompressionNone, 20*time.Second)
 		cl.MaxInFlight = 2048
+		cl.TLSConfig = clTLS
 		var err error
 		clientConn, err = cl.Connect(clientCtx)
 		if err != nil {
